@@ -187,6 +187,10 @@ class Gen:
             return self.unsupported_stmt()
         if o.edge and k < 0.3:
             return self.edge_stmt()
+        if k < 0.5 and getattr(o, 'asserts', True) and r.random() < 0.06:
+            # the two call statements the analysis accepts (and passes over)
+            self.note('assert')
+            return f'{r.choice(["assert", "assume"])}({self.cond()});'
         if depth >= o.max_depth or k < 0.5 or self.nbin >= o.max_bin:
             return self.assign()
         if k < 0.65:
